@@ -3,7 +3,7 @@ import TerwayModel.Model.Net
 Model behind C12: what the daemon returns for an ADD and what the plugin makes of it.
   daemon/daemon.go        defaultForNetConf
   pkg/eni/remote.go       RemoteIPResource.ToRPC (PodENI, one NetConf per allocation)
-  pkg/eni/local.go        LocalIPResource.ToRPC  (local pool and CRD multi-IP results)
+  (pkg/eni/local.go LocalIPResource.ToRPC - a plain field copy with DefaultRoute = true - is NOT modelled here)
   plugin/terway/cni.go    parseSetupConf (address / gateway / route / limit recovery), getDatePath
 Addresses are numbers; a CIDR string is `empty`, `bad` (unparsable) or `ok addr len`.
 -/
